@@ -229,9 +229,11 @@ fn counting<A: Abc>(rec: &mut Recorder, rng: &mut impl Rng, n: usize) {
             let j = rng.gen_range(1..ns);
             if rng.gen_bool(0.5) || m == 0 { seqs[j].push(0) } else { seqs[j].pop(); }
         }
+        // two routes to the same constructor: from_sequences, and collecting an iterator of sequences into a Result
         let r = guarded(|| {
-            CountMatrix::<A>::from_sequences(seqs.iter().map(|s| EncodedSequence::<A>::new(A::syms(s))))
-                .map(|cm| (0..cm.matrix().rows()).map(|i| cm.matrix()[i].to_vec()).collect::<Vec<_>>())
+            let it_seqs = seqs.iter().map(|s| EncodedSequence::<A>::new(A::syms(s)));
+            let cm = if it % 2 == 0 { CountMatrix::<A>::from_sequences(it_seqs) } else { it_seqs.collect::<Result<CountMatrix<A>, _>>() };
+            cm.map(|cm| (0..cm.matrix().rows()).map(|i| cm.matrix()[i].to_vec()).collect::<Vec<_>>())
         });
         rec.reset();
         rec.class(if ragged { "counts_ragged" } else { "counts_equal" });
@@ -252,8 +254,12 @@ fn validity(rec: &mut Recorder, rng: &mut impl Rng, n: usize) {
         // backgrounds: valid dyadic ones, and clearly invalid ones (entry outside [0,1], sum off by >= 1/16)
         let fd = 16i64;
         let mut f: Vec<i64> = match it % 3 { 0 => vec![4, 4, 4, 4, 0], 1 => vec![8, 2, 2, 4, 0], _ => vec![1, 5, 9, 1, 0] };
-        let kind = it % 5;
+        let kind = it % 7;
         match kind {
+            // a negative entry that is NOT the first one, preceded by enough mass, total still exactly one
+            5 => { let j = rng.gen_range(1..5); f = vec![8, 4, 4, 4, 0]; f[j] = -4; f[0] = 16 - (f[1] + f[2] + f[3] + f[4]); }
+            6 => { f = vec![8, 8, 4, 0, -4]; }                                      // negative wildcard
+
             1 => { let j = rng.gen_range(0..4); f[j] += rng.gen_range(1..5); }      // sum too large
             2 => { let j = rng.gen_range(0..4); f[j] -= 1; }                        // sum too small (entries stay >= 0)
             3 => { f[0] = -2; f[1] += 2 + f[0].abs(); f[1] = 16 - f[2] - f[3] - f[0]; } // negative entry, sum = 1
@@ -448,15 +454,21 @@ pub fn record_c10(rec: &mut Recorder, seed: u64, thorough: bool) {
                 let p2: Vec<Value> = (0..n).map(|i| grid(rcm.score_position(&s2, i), 2)).collect();
                 s1.configure(&sm);
                 s2.configure(&rcm);
-                let o1: Vec<Value> = sm.score(&s1).unstripe().iter().map(|&x| grid(x, 2)).collect();
-                let o2: Vec<Value> = rcm.score(&s2).unstripe().iter().map(|&x| grid(x, 2)).collect();
-                (rc_ranks, o1, o2, p1, p2)
+                let sc1 = sm.score(&s1);
+                let sc2 = rcm.score(&s2);
+                let o1: Vec<Value> = sc1.unstripe().iter().map(|&x| grid(x, 2)).collect();
+                let o2: Vec<Value> = sc2.unstripe().iter().map(|&x| grid(x, 2)).collect();
+                // the same scores read from the back (position L-M-i of one strand against position i of the other)
+                let mut b1: Vec<Value> = sc1.iter().rev().map(|&x| grid(x, 2)).collect(); b1.reverse();
+                let mut b2: Vec<Value> = sc2.iter().rev().map(|&x| grid(x, 2)).collect(); b2.reverse();
+                let back_ok = b1 == o1 && b2 == o2;
+                (rc_ranks, o1, o2, p1, p2, back_ok)
             });
             rec.reset(); rec.class("rc_score");
             rec.nontrivial(&(pssm.clone(), ranks.clone()));
             rec.emit(match r {
-                Ok((s2, o1, o2, p1, p2)) => json!({"ev":"rc_score","m":pssm,"seq":ranks,"seq2":s2,"o1":o1,"o2":o2,"p1":p1,"p2":p2,"ret":"ok"}),
-                Err(msg) => json!({"ev":"rc_score","m":pssm,"seq":ranks,"seq2":[],"o1":[],"o2":[],"p1":[],"p2":[],"ret":"panic","msg":msg}),
+                Ok((s2, o1, o2, p1, p2, back_ok)) => json!({"ev":"rc_score","m":pssm,"seq":ranks,"seq2":s2,"o1":o1,"o2":o2,"p1":p1,"p2":p2,"back_ok":back_ok,"ret":"ok"}),
+                Err(msg) => json!({"ev":"rc_score","m":pssm,"seq":ranks,"seq2":[],"o1":[],"o2":[],"p1":[],"p2":[],"back_ok":false,"ret":"panic","msg":msg}),
             });
         }
     }
